@@ -239,3 +239,7 @@ func (c *countingIdentity) Unwrap(ss []*age.Stanza) ([]byte, error) {
 func greaseStanza(r *Rand) *age.Stanza {
 	return &age.Stanza{Type: "grease-" + hx(r.bytes(3)), Args: []string{randArg(r)}, Body: r.bytes(r.intn(100))}
 }
+
+func sshEdPub(seed []byte) ed25519.PublicKey {
+	return ed25519.NewKeyFromSeed(seed).Public().(ed25519.PublicKey)
+}
